@@ -29,20 +29,22 @@ Qed.
 (* for every declaration whose type is not _Bool: accepted -> 6.7.2.1p4-5 and 6.7.5p2 hold *)
 Theorem bitfield_constraints_partial : forall b : bitfield,
   bf_type b <> BFbool ->
+  bf_named b = true ->
   (forall bytes, bf_type b = BFint bytes -> bytes <= 16) ->
   bitfield_accepts b = true -> c11_bitfield_ok b.
 Proof.
-  intros [t w named al pk] Hnb Hsz H. unfold bitfield_accepts, bitfield_inputs in H. cbn [bf_type bf_width bf_named bf_alignas bf_packed] in *.
+  intros [t w named al pk] Hnb Hnm Hsz H. unfold bitfield_accepts, bitfield_inputs in H. cbn [bf_type bf_width bf_named bf_alignas bf_packed] in *.
+  subst named. rewrite andb_true_r in H.
   unfold c11_bitfield_ok. cbn [bf_type bf_width bf_named bf_alignas bf_packed].
   destruct t as [|bytes|]; [exfalso; apply Hnb; reflexivity| |].
   - specialize (Hsz bytes eq_refl).
-    destruct (bitfield_check true bytes (if al then 8 else 0) pk named w) eqn:C; [discriminate|].
+    destruct (bitfield_check true bytes (if al then 8 else 0) pk true w) eqn:C; [discriminate|].
     apply bitfield_check_none in C. destruct C as (C1 & _ & C3 & C4 & C5 & C6).
     rewrite N.mod_small in C6 by (rewrite M64_val; lia).
     repeat split; auto; try discriminate.
     + cbn [bf_type_width]. lia.
     + destruct al; [discriminate|reflexivity].
-  - destruct (bitfield_check false 4 (if al then 8 else 0) pk named w) eqn:C; [discriminate|].
+  - destruct (bitfield_check false 4 (if al then 8 else 0) pk true w) eqn:C; [discriminate|].
     apply bitfield_check_none in C. destruct C as (_ & C2 & _). discriminate.
 Qed.
 
@@ -53,6 +55,15 @@ Theorem bitfield_constraints_refuted :
 Proof.
   exists (mk_bf BFbool 2 true false false). split; [reflexivity|].
   unfold c11_bitfield_ok; simpl. intros (_ & H & _). lia.
+Qed.
+
+(* a second way the full statement fails: an alignment specifier on an UNNAMED bit-field is not seen by
+   addmember, structdecl passes 0 for it (gcc and clang reject the declaration, 6.7.5p2) *)
+Theorem bitfield_alignas_unnamed_refuted :
+  exists b : bitfield, bf_type b = BFint 4 /\ bitfield_accepts b = true /\ ~ c11_bitfield_ok b.
+Proof.
+  exists (mk_bf (BFint 4) 3 false true false). split; [reflexivity|]. split; [reflexivity|].
+  unfold c11_bitfield_ok. cbn [bf_alignas]. intros (_ & _ & _ & H & _). discriminate.
 Qed.
 
 Lemma bitfield_check_accept : forall tsize named width,
@@ -159,23 +170,38 @@ Definition array_signed_value (lsigned : bool) (u : N) : Z :=
 
 (* accepted constant array sizes satisfy what the implementation documents: integer type, value >= 0,
    complete non-function element type, total size below 2^64 *)
-Theorem array_size_constraints : forall (isint lsigned : bool) (u : N) (incomplete isfunc : bool) (esize : N),
-  (u < 2 ^ 64)%N -> (0 < esize)%N ->
+Lemma array_check_none : forall isint lsigned u incomplete isfunc esize,
+  (0 < esize)%N ->
   array_check isint lsigned u incomplete isfunc esize = None ->
-  ext_array_ok (mk_arr isint (array_signed_value lsigned u) incomplete isfunc esize).
+  isint = true /\ incomplete = false /\ isfunc = false /\
+  (lsigned && negb (N.eqb (N.shiftr u 63) 0)) = false /\ (u <= (M64 - 1) / esize)%N.
 Proof.
-  intros isint lsigned u inc fn es Hu Hes H. unfold array_check in H.
-  destruct isint; simpl in H; [|discriminate]. destruct inc; [discriminate|]. destruct fn; [discriminate|].
-  replace (N.eqb es 0) with false in H by (symmetry; apply N.eqb_neq; lia).
+  intros isint lsigned u inc fn es Hes H. unfold array_check in H.
+  destruct isint; [|discriminate]. cbn [negb] in H.
+  destruct inc; [discriminate|]. destruct fn; [discriminate|].
+  destruct (N.eqb es 0) eqn:E0; [apply N.eqb_eq in E0; lia|].
   destruct (lsigned && negb (N.eqb (N.shiftr u 63) 0)) eqn:Neg; [discriminate|].
   destruct (N.ltb ((M64 - 1) / es) u) eqn:Big; [discriminate|].
   apply N.ltb_ge in Big.
-  unfold ext_array_ok, array_signed_value; simpl. rewrite Neg.
-  repeat split; try reflexivity; try lia.
-  assert (u * es <= M64 - 1)%N.
+  split; [reflexivity|]. split; [reflexivity|]. split; [reflexivity|]. split; [reflexivity|exact Big].
+Qed.
+
+Theorem array_size_constraints : forall (isint lsigned : bool) (u : N) (incomplete isfunc : bool) (esize : N),
+  (u < M64)%N -> (0 < esize)%N ->
+  array_check isint lsigned u incomplete isfunc esize = None ->
+  ext_array_ok (mk_arr isint (array_signed_value lsigned u) incomplete isfunc esize).
+Proof.
+  intros isint lsigned u inc fn es Hu Hes H.
+  destruct (array_check_none _ _ _ _ _ _ Hes H) as (A & B & C & Neg & Big). subst isint inc fn.
+  unfold ext_array_ok, array_signed_value. cbn [ar_len_isint ar_len ar_elem_incomplete ar_elem_function ar_elem_size].
+  rewrite Neg.
+  assert (P : (u * es <= M64 - 1)%N).
   { transitivity (((M64 - 1) / es) * es)%N; [apply N.mul_le_mono_r; exact Big|].
     rewrite N.mul_comm. apply N.mul_div_le. lia. }
-  rewrite M64_val in H0. change (2 ^ 64) with 18446744073709551616. lia.
+  repeat split; try reflexivity.
+  - apply N2Z.is_nonneg.
+  - rewrite <- N2Z.inj_mul. change (2 ^ 64) with (Z.of_N M64). apply N2Z.inj_lt.
+    clear - P. rewrite M64_val in *. lia.
 Qed.
 
 (* C11 itself requires a value greater than zero: false of the code, which accepts `int a[0]`
@@ -183,29 +209,31 @@ Qed.
 Theorem array_size_c11_refuted :
   exists a : arraydecl, array_accepts a true = true /\ ~ c11_array_ok a.
 Proof.
-  exists (mk_arr true 0 false false 4%N). split; [reflexivity|].
-  unfold c11_array_ok; simpl. intros (_ & H & _). lia.
+  exists (mk_arr true 0 false false 4%N). split; [vm_compute; reflexivity|].
+  unfold c11_array_ok. cbn [ar_len]. intros (_ & H & _). lia.
 Qed.
 
 Theorem array_size_c11_partial : forall (isint lsigned : bool) (u : N) (incomplete isfunc : bool) (esize : N),
-  (u < 2 ^ 64)%N -> (0 < esize)%N -> u <> 0%N ->
+  (u < M64)%N -> (0 < esize)%N -> u <> 0%N ->
   array_check isint lsigned u incomplete isfunc esize = None ->
   c11_array_ok (mk_arr isint (array_signed_value lsigned u) incomplete isfunc esize).
 Proof.
   intros isint lsigned u inc fn es Hu Hes Hnz H.
-  destruct (array_size_constraints isint lsigned u inc fn es Hu Hes H) as (A & B & C & D & _).
-  simpl in *. unfold c11_array_ok; simpl. repeat split; auto.
-  unfold array_signed_value in *. destruct (lsigned && negb (N.eqb (N.shiftr u 63) 0)); lia.
+  destruct (array_check_none _ _ _ _ _ _ Hes H) as (A & B & C & Neg & Big). subst isint inc fn.
+  unfold c11_array_ok, array_signed_value. cbn [ar_len_isint ar_len ar_elem_incomplete ar_elem_function].
+  rewrite Neg. split; [reflexivity|]. split; [|split; reflexivity].
+  clear - Hnz. lia.
 Qed.
 
 (* a negative signed size is rejected whatever its magnitude *)
 Theorem array_negative_rejected : forall (u : N) (esize : N),
-  (2 ^ 63 <= u < 2 ^ 64)%N -> (0 < esize)%N ->
+  (9223372036854775808 <= u)%N -> (0 < esize)%N ->
   array_check true true u false false esize <> None.
 Proof.
-  intros u es [Hlo Hhi] Hes. unfold array_check. simpl.
-  replace (N.eqb es 0) with false by (symmetry; apply N.eqb_neq; lia).
+  intros u es Hlo Hes. unfold array_check. cbn [negb andb].
+  destruct (N.eqb es 0) eqn:E0; [apply N.eqb_eq in E0; lia|].
   assert (S : N.shiftr u 63 <> 0%N).
-  { rewrite N.shiftr_div_pow2. intro E. apply N.div_small_iff in E; [|discriminate]. lia. }
-  apply N.eqb_neq in S. rewrite S. simpl. discriminate.
+  { rewrite N.shiftr_div_pow2. intro E. apply N.div_small_iff in E; [|discriminate].
+    change (2 ^ 63)%N with 9223372036854775808%N in E. lia. }
+  apply N.eqb_neq in S. rewrite S. cbn [negb]. discriminate.
 Qed.
